@@ -1,9 +1,13 @@
 """Shared driver for the statement-structure properties C07 / C08 / C13 / C14."""
-from .. import coltypes, kw, stmt
+from .. import coltypes, grammar, kw, stmt
 
 QUERY_KW = ["JoinType", "UnionType", "Order", "NullOrdering", "Frame", "SubQueryOper", "Keyword", "SelectDistinct", "Function", "LockType", "LockBehavior",
             "UnOper", "BinOper", "PgFunction", "PgBinOper", "SqliteBinOper"]
 SCHEMA_KW = ["ForeignKeyAction"]
+
+
+QUERY_PRODUCTIONS = [("prepare_select_statement", "select"), ("prepare_insert_statement", "insert"), ("prepare_update_statement", "update"),
+                     ("prepare_delete_statement", "delete"), ("prepare_with_query", "with_query"), ("prepare_table_ref", "table_ref")]
 
 
 def run_structure(run, pid, kind, dialects, cfgs):
@@ -22,6 +26,12 @@ def run_structure(run, pid, kind, dialects, cfgs):
             stmt.check_adjacency(run, pid + ".R2", f, cfg, d, select=sel)
             nk = kw.check_tables(run, pid + (".R4" if pid in ("C07", "C13") else ".R5"), f, cfg, d, QUERY_KW if kind == "query" else SCHEMA_KW)
             run.floor(pid + (".R4" if pid in ("C07", "C13") else ".R5"), "%s:keyword-rows" % d, nk, 50 if kind == "query" else 5, cfg)
+        if kind == "query":
+            for d in present:
+                total = 0
+                for method, production in QUERY_PRODUCTIONS:
+                    total += grammar.check_production(run, pid + ".R1", f, cfg, d, stmt.QB, method, production)
+                run.floor(pid + ".R1", "%s:grammar-nfa-states" % d, total, 400, cfg)
         ns = stmt.check_separators(run, pid + ".R2", f, cfg, select=sel)
         run.floor(pid + ".R2", "separated-lists", ns, 8 if kind == "query" else 3, cfg)
         npar = stmt.check_parens(run, pid + ".R2", f, cfg, select=sel)
@@ -39,4 +49,9 @@ def run_structure(run, pid, kind, dialects, cfgs):
                 if d != "sqlite":
                     nt = coltypes.check_dialect(run, pid + ".R2", f, cfg, d)
                     run.floor(pid + ".R2", "%s:type-rows" % d, nt, 40, cfg)
+    if kind == "query":
+        run.trusted.append("specs/{%s}.ebnf (clause-level grammar skeletons written from the dialect manuals, permissive where marked) and specs/domain.json "
+                           "(feature-set assumptions)" % ",".join(dialects))
+        run.assumptions.append("R1 decides the token language of the renderers with guards free (correlated boolean flags, loop-index guards and variants "
+                               "excluded by a calling match are tracked); clause lists are taken as non-empty where they are rendered")
     run.trusted.append("specs/keywords.json, specs/unsupported.json, specs/guards.json (reviewed tables, one named symbol per entry)")
